@@ -81,7 +81,7 @@ int main(int argc, char** argv) {
             Real v;
             if (kd == 'x') continue;
             if (kd == 'a') v = in(S("q", i), qa[i % 8], "angle");
-            else if (kd == 'c') v = in(S("q", i), 0.25 + 0.125 * (i % 5), "coord");
+            else if (kd == 'c') v = in(S("q", i), (T == "BendStretch" && variant == "neg" ? -1 : 1) * (0.25 + 0.125 * (i % 5)), "coord");
             else { v = in(S("q", i), qq[nquat % 4], "quat"); ++nquat; }
             s.updQ()[i] = v; s.updQ()[nq + i] = v;
         }
@@ -99,27 +99,38 @@ int main(int argc, char** argv) {
             Vector qd(nq); for (int i = 0; i < nq; ++i) qd[i] = s.getQDot()[(b - 1) * nq + i];
             outVec(pre + "qdot", qd);
             if (nq == 0 || !doFits) continue;
+            // Position fits start from the default state. Velocity fits are done at the true configuration (so that they do not
+            // depend on the position fit): whole-velocity and angular-velocity fits from zero speeds, the linear-velocity fit from
+            // the true speeds (a linear-velocity-only fit may leave the rotational speeds alone, so the target is reachable only
+            // if those are already right).
             // Ellipsoid: the translation / linear-velocity fits are directional approximations built from nested atan2 and
             // normalisations; only its rotation and angular-velocity fits are exercised (see spec NOT_COVERED)
-            if (T != "Ellipsoid") {   // fit the whole transform, then the whole velocity at the fitted configuration
+            State sz = s;                              // true q, zero u of this mobilizer
+            for (int i = 0; i < nu; ++i) sz.updU()[(b - 1) * nu + i] = 0;
+            if (T != "Ellipsoid") {
                 State s2 = s0;
                 mb.setQToFitTransform(s2, X);
-                if (T != "CantileverFreeBeam") mb.setUToFitVelocity(s2, V);    // its linear-velocity fit is a FactorQTZ least squares (LAPACK)
-                M.system.realize(s2, Stage::Velocity);
+                M.system.realize(s2, Stage::Position);
                 outXform(pre + "fitX", mb.getMobilizerTransform(s2));
-                outSV(pre + "fitV", mb.getMobilizerVelocity(s2));
+                if (T != "CantileverFreeBeam") {       // its linear-velocity fit is a FactorQTZ least squares (LAPACK)
+                    State s2b = sz;
+                    mb.setUToFitVelocity(s2b, V);
+                    M.system.realize(s2b, Stage::Velocity);
+                    outSV(pre + "fitV", mb.getMobilizerVelocity(s2b));
+                }
             }
             {   // rotation only / angular velocity only
                 State s3 = s0;
                 mb.setQToFitRotation(s3, X.R());
-                mb.setUToFitAngularVelocity(s3, V[0]);
-                M.system.realize(s3, Stage::Velocity);
+                M.system.realize(s3, Stage::Position);
                 outRot(pre + "fitR", mb.getMobilizerTransform(s3).R());
-                outV3(pre + "fitW", mb.getMobilizerVelocity(s3)[0]);
+                State s3b = sz;
+                mb.setUToFitAngularVelocity(s3b, V[0]);
+                M.system.realize(s3b, Stage::Velocity);
+                outV3(pre + "fitW", mb.getMobilizerVelocity(s3b)[0]);
             }
-            if (T != "Ellipsoid") {   // translation only / linear velocity only, starting from the true orientation (q already right, u zero)
+            if (T != "Ellipsoid") {   // translation only / linear velocity only, starting from the true state
                 State s4 = s;
-                for (int i = 0; i < nu; ++i) s4.updU()[(b - 1) * nu + i] = 0;
                 mb.setQToFitTranslation(s4, X.p());
                 if (T != "CantileverFreeBeam") mb.setUToFitLinearVelocity(s4, V[1]);
                 M.system.realize(s4, Stage::Velocity);
